@@ -564,21 +564,30 @@ def check_counting(ctx: Ctx):
     ctx.decide("R02.5", init, init.node, construct + ":labels", "label tuples belong to their own side", list(a.get("_pred_labels", ())) == LBL["PRED"] and list(a.get("_ref_labels", ())) == LBL["REF"], {"pred": repr(a.get("_pred_labels")), "ref": repr(a.get("_ref_labels"))})
 
 
+def _run_rule(ctx, name, fn):
+    """a sub-rule that cannot be evaluated is recorded as undecided; the remaining rules still run"""
+    try:
+        return fn(ctx)
+    except (Undecided, AnchorMissing) as e:
+        ctx.undecided(name, None, None, f"{name}:analysis", f"{type(e).__name__}: {e}")
+        return 0
+
+
 def check(ctx: Ctx):
     # instance counts and label tuples come from the label enumeration helpers (R09.6)
     from . import c03 as _c03e
     from .labelenum import check_label_enumeration as _cle
 
     _c03e._guarded(ctx, "R09.6", _cle)
-    check_evaluate(ctx)
-    check_calculators(ctx)
-    check_reducers(ctx)
-    check_counting(ctx)
+    _run_rule(ctx, "check_evaluate", check_evaluate)
+    _run_rule(ctx, "check_calculators", check_calculators)
+    _run_rule(ctx, "check_reducers", check_reducers)
+    _run_rule(ctx, "check_counting", check_counting)
     # tp+fp == number of predicted instances also needs relabelling not to merge or lose instances
     from . import c04
 
-    c04.check_chained_replacement(ctx)
-    c04.check_relabel(ctx)
+    _run_rule(ctx, "check_chained_replacement", c04.check_chained_replacement)
+    _run_rule(ctx, "check_relabel", c04.check_relabel)
     # instance counts of semantic input are the approximator's component counts (R05.3)
     from . import c03, c05
 
@@ -593,6 +602,7 @@ def check(ctx: Ctx):
     from . import c10, c15
 
     c03._guarded(ctx, "R10.2", c10.check_bbox)
+    c03._guarded(ctx, "R10.5", c10.check_padded_starts)
     c03._guarded(ctx, "R10.3", c10.check_crop_mask)
     c03._guarded(ctx, "R15.1", c15.check_no_input_mutation)
     c03._guarded(ctx, "R03.3", c03.check_beats)
